@@ -38,7 +38,11 @@ def main():
     }
     for name, mk in strategies.items():
         syn = Synthesizer(df, anonymization_params=ap, clustering=mk())
-        res = syn.sample()
+        try:
+            res = syn.sample()
+        except ValueError as e:      # C07's known finding F14 (empty cluster): still a deterministic outcome to compare across processes
+            out[name] = {"table": "raised:" + str(e)[:60], "clusters": repr((syn.clusters.initial_cluster, [(o.name, s, d) for o, s, d in syn.clusters.derived_clusters])), "rows": -1}
+            continue
         out[name] = {"table": hashlib.sha256(res.to_csv(index=False).encode()).hexdigest()[:16],
                      "clusters": repr((syn.clusters.initial_cluster, [(o.name, s, d) for o, s, d in syn.clusters.derived_clusters])), "rows": len(res)}
     print("RESULT " + json.dumps(out))
